@@ -21,7 +21,7 @@ var (
 )
 
 func checkC17(p *core.Prog, r *core.Report) {
-	r.Explanation = "Decides structural necessary conditions of exact counts and reclamation: (R1) in every engine function, on every path and inside each shard-mutex section, LockedCount moves iff the key's depth moves and in the same direction; WaitCount++ pairs with AddWaitLock; WaitCount-- happens at most once per path and exactly on the paths where a queued request leaves the queue (grant in wakeUpWaitLock, waiter arm of doTimeOut / cancelWaitLock), helpers inlined; (R2) at every reply the LCount argument is uint16(<*LockManager>.locked) or constant 0 and LRCount is <*Lock>.locked or 0; (R3) in the request-path functions the reference count of a lock is raised exactly for its wheel insertions and ack registrations (no missing and no surplus reference); (R4) every Lock.refCount decrement is followed on its path by the zero test that guards FreeLock (tabled exceptions: RemoveLock, RemoveLongTimeOut, RemoveLongExpried, whose callers test); (R5) RemoveLockManager clears the value and resets the queues before the manager is recycled and decrements KeyCount once. (R6) the compaction loops of the per-key holder and wait queues return the queue's reference for every entry they drop. (R7) a function that answers a queued request itself (timeout, cancel) sets its tombstone before it scans the wait queue with GetWaitLock (the scan is what unlinks answered entries and decides `waited`). NOT decided: numeric exactness of the magnitudes, drain to zero, unreachability of freed objects."
+	r.Explanation = "Decides structural necessary conditions of exact counts and reclamation: (R1) in every engine function, on every path and inside each shard-mutex section, LockedCount moves iff the key's depth moves and in the same direction; WaitCount++ pairs with AddWaitLock; WaitCount-- happens at most once per path and exactly on the paths where a queued request leaves the queue (grant in wakeUpWaitLock, waiter arm of doTimeOut / cancelWaitLock), helpers inlined; (R2) at every reply the LCount argument is uint16(<*LockManager>.locked) or constant 0 and LRCount is <*Lock>.locked or 0; (R3) in the request-path functions the reference count of a lock is raised exactly for its wheel insertions and ack registrations (no missing and no surplus reference); (R4) every Lock.refCount decrement is followed on its path by the zero test that guards FreeLock (tabled exceptions: RemoveLock, RemoveLongTimeOut, RemoveLongExpried, whose callers test); (R5) RemoveLockManager clears the value and resets the queues before the manager is recycled and decrements KeyCount once. (R6) the compaction loops of the per-key holder and wait queues return the queue's reference for every entry they drop. (R7) a function that answers a queued request itself (timeout, cancel) sets its tombstone before it scans the wait queue with GetWaitLock (the scan is what unlinks answered entries and decides `waited`). (R8) a read of Lock.locked that serves as the amount of a LockedCount / UnLockCount / key-depth adjustment is not reachable from a call that may write Lock.locked (the counters move by the depth captured before the hold is removed). NOT decided: numeric exactness of the magnitudes, drain to zero, unreachability of freed objects."
 	r.Assumptions = []string{"Go type checker, go/ssa and VTA call graph are correct for /repo", "counters are only compared by direction and pairing, not magnitude"}
 	c17R1(p, r)
 	c17R2(p, r)
@@ -30,6 +30,7 @@ func checkC17(p *core.Prog, r *core.Report) {
 	c17R5(p, r)
 	c17R6(p, r)
 	c17R7(p, r)
+	c17R8(p, r)
 }
 
 var c17Engine = []string{
